@@ -65,17 +65,20 @@ theorem subtreeIPView_ok (ip mask : Bytes) : ∃ v, subtreeIPView ip mask = .ok 
 
 /-! ### algorithm-name tables -/
 
-theorem keyAlgName_ok (p : Int) : ∃ s, keyAlgName p = .ok s := by
+/-- what `PublicKeyAlgorithm.String` needs of its table: the clamp bound does not exceed the table, and entry 0 exists -/
+def KeyAlgTableCovers : Prop :=
+  Gen.totalKeyAlgorithms ≤ Gen.keyAlgorithmNames.length ∧ 0 < Gen.keyAlgorithmNames.length
+
+theorem keyAlgName_ok (hT : KeyAlgTableCovers) (p : Int) : ∃ s, keyAlgName p = .ok s := by
   unfold keyAlgName
   simp only
   split
-  · exact ⟨_, rfl⟩
+  · apply at?_of_lt
+    simpa using hT.2
   · rename_i h
-    have h1 : 0 ≤ p ∧ p < 6 := by
-      simp only [totalKeyAlgorithms] at h
-      omega
+    have h1 : 0 ≤ p ∧ p < (Gen.totalKeyAlgorithms : Int) := by omega
     apply at?_of_lt
-    simp only [keyAlgorithmNames, List.length_cons, List.length_nil]
+    have := hT.1
     omega
 
 theorem sigAlgString_ok (a : Int) : ∃ s, sigAlgString a = .ok s := by
